@@ -200,13 +200,15 @@ def m_parts(c, binp, tier):
 
 
 def m_laws(c, tier):
+    """all tables over small universes.  The laws are both C07's and C08's (one model checks them together), so the
+    thorough tier splits the two larger universes between the two properties: half a million tables each."""
     runs = [("laws-1x2x1-consistent", {"Universe": "1x2x1", "Shape": "consistent"}),
             ("laws-1x2x1-any", {"Universe": "1x2x1", "Shape": "any"})]
     if tier == "thorough":
-        runs += [("laws-1x2x2-consistent", {"Universe": "1x2x2", "Shape": "consistent"}),
-                 ("laws-2x2x1-consistent", {"Universe": "2x2x1", "Shape": "consistent"})]
+        runs += [("laws-2x2x1-consistent", {"Universe": "2x2x1", "Shape": "consistent"})] if c.prop == "C07" else \
+                [("laws-1x2x2-consistent", {"Universe": "1x2x2", "Shape": "consistent"})]
     for name, consts in runs:
-        c.add_model(run_model("%s-%s" % (c.prop, name), "MC_LikelyLaws", consts, LAWS_INV, workers=14, replay=False, timeout=7200))
+        c.add_model(run_model("%s-%s" % (c.prop, name), "MC_LikelyLaws", consts, LAWS_INV, workers=14, replay=False, timeout=14400))
 
 
 def m_proofs(c, module="LikelyProofs"):
